@@ -1,8 +1,16 @@
+//! Dispatch from a failed obligation (property id + label + function) to a failing-input finder.
+use crate::alloc_model;
+use crate::serde_find;
+
 pub fn run(args: &[String]) -> String {
     let pid = args.first().map(|s| s.as_str()).unwrap_or("");
-    let label = args.get(1).map(|s| s.as_str()).unwrap_or("");
-    let _ = (pid, label);
-    "{\"found\":false,\"note\":\"no finder registered for this obligation\"}".to_string()
+    let seed: u64 = args.get(3).and_then(|s| s.parse().ok()).unwrap_or(0);
+    match pid {
+        "C12" | "C13" | "C14" | "C04" | "C03" => alloc_model::search(seed, 4000),
+        "C29" => serde_find::limit_search(seed),
+        "C15" => serde_find::roundtrip_search(seed),
+        _ => "{\"found\":false,\"note\":\"no finder registered for this property\"}".to_string(),
+    }
 }
 
 pub fn rerun(_doc: &str) -> String {
